@@ -37,8 +37,5 @@ Definition m_0100 (hver : N) : msg :=
        else m_0100_layout 5 8 7 0.
 
 Definition msg_text (id ver d : N) : option msg :=
-  match id with
-  | 256 => Some (m_0100 ver)
-  | _ => msg_simple id ver d
-  end.
+  if id =? 0x0100 then Some (m_0100 ver) else msg_simple id ver d.
 End Gbk.
